@@ -41,7 +41,7 @@ Definition uint8 : dtype := {| dk := KUint; dsize := 1 |}.
 (* ---- standard files *)
 
 Definition std_header (c : coding) (size : Z) (order : option bytes) (chans count rate : Z) : header :=
-  {| h_coding := c; h_size := size; h_count := count; h_rate := rate; h_chans := chans;
+  {| h_coding := c; h_size := size; h_count := count; h_rate := Some rate; h_chans := chans;
      h_order := order; h_short := false |}.
 
 (* header text with arbitrary ignored fields [pre] before the six standard ones,
